@@ -9,7 +9,7 @@ use crate::cart::patch_key;
 use crate::case::Case;
 use crate::machine::{Machine, Regs};
 use crate::model::bus::RefBus;
-use crate::model::intc::{dispatch, Outcome, RefCpu};
+use crate::model::intc::{dispatch_set, Outcome, RefCpu};
 use crate::prng::Rng;
 use crate::setup::{model_of, replicas};
 
@@ -328,7 +328,10 @@ impl Scenario for IrqDispatch {
                             clocks += 4 * consumed as u64;
                         }
                     }
-                    let (outcome, alt) = dispatch(&mut cpu, &mut bus);
+                    let candidates = dispatch_set(&cpu, &bus);
+                    if candidates.len() > 1 {
+                        ctx.cov.hit("spec_set_forks");
+                    }
                     // implementation
                     let res = std::panic::catch_unwind(std::panic::AssertUnwindSafe(|| match k {
                         0 => m.handle_interrupt(),
@@ -342,11 +345,35 @@ impl Scenario for IrqDispatch {
                         out.push(Violation::new("C07", format!("C07/panic/{}", path), format!("op {}: step panicked: {}", opi, msg)));
                         return out;
                     }
-                    let what = format!("op {} step via {} from (IF {:#04x}, IE {:#04x}, IME {}, run state {}, SP {:#06x}) expecting {:?}", opi, path, before.0, before.1, before.2, before.3, before.4, outcome);
-                    if let Some(v) = compare("C07", m, &cpu, &mut bus, alt, path, &what) {
-                        out.push(v);
-                        return out;
+                    // the implementation must equal one admissible result; the model continues from that one
+                    let mut first_fail: Option<Violation> = None;
+                    let mut chosen: Option<(RefCpu, RefBus, Outcome, Option<u8>)> = None;
+                    for (c, b, o, a) in candidates {
+                        let what = format!("op {} step via {} from (IF {:#04x}, IE {:#04x}, IME {}, run state {}, SP {:#06x}) expecting {:?}", opi, path, before.0, before.1, before.2, before.3, before.4, o);
+                        let mut b2 = b.clone();
+                        match compare("C07", m, &c, &mut b2, a, path, &what) {
+                            None => {
+                                chosen = Some((c, b2, o, a));
+                                break;
+                            }
+                            Some(v) => {
+                                if first_fail.is_none() {
+                                    first_fail = Some(v);
+                                }
+                            }
+                        }
                     }
+                    let (outcome, alt) = match chosen {
+                        Some((c, b, o, a)) => {
+                            cpu = c;
+                            bus = b;
+                            (o, a)
+                        }
+                        None => {
+                            out.push(first_fail.unwrap());
+                            return out;
+                        }
+                    };
                     let oc = match outcome {
                         Outcome::Nothing => 0u64,
                         Outcome::WokeOnly => 1,
